@@ -16,6 +16,7 @@ Vis == \/ \E r \in Roots : (AddRec(r) /\ Lbl(<<"add", TruePath(r)>>)) \/ (Remove
        \/ \E p \in 1..MaxIno, n \in Comp : Mkdir(p, n) /\ Lbl(<<"mkdir", Append(TruePath(p), n)>>)
        \/ \E i \in 1..MaxIno : Rmdir(i) /\ Lbl(<<"rmdir", TruePath(i)>>)
        \/ \E i, np \in 1..MaxIno, n \in Comp : Rename(i, np, n) /\ Lbl(<<"rename", TruePath(i), Append(TruePath(np), n)>>)
+       \/ \E i, j \in 1..MaxIno : RenameOver(i, j) /\ Lbl(<<"rename2", TruePath(i), TruePath(j)>>)
 \* the reader runs whenever it can: priority over the driver's next step (the driver waits for quiescence)
 CanHandle == kq # <<>> /\ (~parked \/ draining)
 GNext == \/ /\ CanHandle /\ Handle
